@@ -94,6 +94,7 @@ def run(chk, cases_override=None):
                       {"theorem": "Props/P_C04.v (go_shape_ok or a theorem depending on it)", "shape": T.shape_diag(),
                        "coq_output": pr["out"][-1500:]}, False)
     launcher = [c for c in cases if any(e["k"] == "req" and e["q"] != "begin" for e in c["trace"])]
+    nested = [c for c in cases if not T.is_leaf(c)]
     streams = collections.Counter()
     for c in cases:
         ps = [k for k, p in FINDINGS.items() if p(c)]
@@ -106,10 +107,12 @@ def run(chk, cases_override=None):
                 "(ok/failed/transport error/no reply/empty) x second-phase script (transport-failure prefix up to the tier's bound, "
                 "then ok/failed/empty or failures for ever) x retry group (commit,rollback counts incl. 0) x cancellation point "
                 "(never, before the call, during business, during the k-th second-phase send); every mode with and without a "
-                "current transaction; arbitrary entry contexts; plus a seeded stream of random scripts (1 in 4 hostile). "
+                "current transaction; arbitrary entry contexts; nested scopes on the same context (every outer x inner mode "
+                "pair x outcomes, three-level chains; per-xid decision clauses); plus a seeded stream of random scripts (1 in 4 hostile). "
                 "non-trivial = at least one commit/rollback reached the coordinator; distinct by case inputs",
         "traces_validated_against_impl": len(cases) - len(mism),
         "oracle_failures": len(failing),
+        "nested_cases": len(nested),
         "streams": dict(streams),
         "generators": dict(collections.Counter(c["gen"] for c in cases)),
         "harness_secs": round(secs, 1),
